@@ -7,7 +7,9 @@ as a copy source, or handed by pointer to a callee -- before the reset itself ha
 function (key-dependent constants, vtable and function pointers) may be read freely.
 
 State per program point: fields the reset has written into so far (must, intersection at joins), plus the constant stored into a
-scalar field when known, which prunes `if (ctx->ptr == 16)` style branches right after `ctx->ptr = 0`.  A partial write marks the
+scalar field when known, which prunes `if (ctx->ptr == 16)` style branches right after `ctx->ptr = 0`; and what a branch
+established about a parameter (zero / non-zero), handed on to callees that receive the parameter unchanged, which prunes the
+`if (len == 0) return;` of a helper called on the caller's `len != 0` side.  A partial write marks the
 field as written (the analysis does not add up byte ranges: a field assembled piecewise counts as initialised by its first piece;
 this is the stated imprecision, it can only hide a finding, never raise one)."""
 from . import irf, build
@@ -154,8 +156,25 @@ class ResetFlow:
                         if f and st.get(f) is not None and not self._written_after(F, blk, lv['v'], f, cp):
                             truth = (st[f] == c['ops'][1]['v']) == (c['pred'] == 'eq')
                             succ = [t['ops'][2]['v']] if truth else [t['ops'][1]['v']]
+            edge_fact = {}
+            if t['op'] == 'br' and len(t['ops']) == 3 and t['ops'][0]['k'] == 'i':
+                c = F.insts[t['ops'][0]['v']]
+                if c['op'] == 'icmp' and c['pred'] in ('eq', 'ne') and c['ops'][1]['k'] == 'c' and c['ops'][1]['v'] == 0 and c['ops'][0]['k'] == 'a':
+                    key = ('arg', c['ops'][0]['v'])
+                    tz, fz = ('z', 'nz') if c['pred'] == 'eq' else ('nz', 'z')        # fact on the true / false edge
+                    known = st.get(key)
+                    if known is not None:
+                        succ = [t['ops'][2]['v']] if known == tz else [t['ops'][1]['v']]
+                    else:
+                        edge_fact = {t['ops'][2]['v']: (key, tz), t['ops'][1]['v']: (key, fz)}
+                        if t['ops'][2]['v'] == t['ops'][1]['v']:
+                            edge_fact = {}
             for s_ in succ:
-                new = self._join(instate.get(s_), st) if s_ in instate else dict(st)
+                st_e = st
+                if s_ in edge_fact:
+                    st_e = dict(st)
+                    st_e[edge_fact[s_][0]] = edge_fact[s_][1]
+                new = self._join(instate.get(s_), st_e) if s_ in instate else dict(st_e)
                 if s_ not in instate or new != instate[s_]:
                     instate[s_] = new
                     if s_ not in work:
@@ -215,9 +234,17 @@ class ResetFlow:
             G = self.funcs.get(cal)
             passed = [k for k, a in enumerate(args) if a == cp]
             if G is not None and passed:
-                out = self._run(G, {'k': 'a', 'v': passed[0]}, st, path + (cal,))
+                mine = {k: v for k, v in st.items() if isinstance(k, tuple)}
+                sin = {k: v for k, v in st.items() if not isinstance(k, tuple)}
+                for j, a in enumerate(args):         # what is known about the caller's parameters holds for the callee's when passed unchanged
+                    if a['k'] == 'a' and ('arg', a['v']) in mine:
+                        sin[('arg', j)] = mine[('arg', a['v'])]
+                    elif a['k'] == 'c' and a['v'] is not None:
+                        sin[('arg', j)] = 'z' if a['v'] == 0 else 'nz'
+                out = self._run(G, {'k': 'a', 'v': passed[0]}, sin, path + (cal,))
                 st.clear()
-                st.update(out)
+                st.update({k: v for k, v in out.items() if not isinstance(k, tuple)})
+                st.update(mine)
                 return
             # any other callee: a pointer into a field is a read of that field (and possibly a write)
             touched = []
